@@ -21,8 +21,11 @@ def receiver(q):
 class Store:
     """builds a TrackStore value with `nshards` shards holding the given tracks (placed by id % nshards, decided by z3)"""
 
-    def __init__(self, P, vm, nshards, tracks, tag='st'):
+    def __init__(self, P, vm, nshards, tracks, tag='st', defaults=None, env=None):
+        """defaults: (default_attributes, metric, notifier) values for a store of concrete types; env: generic binding
+        (TA/M/OA/N -> concrete types) under which the worker loop is executed"""
         self.P, self.vm, self.n = P, vm, nshards
+        self.env = env if env is not None else STORE_ENV
         shards = [[] for _ in range(nshards)]
         self.placement = []
         for t in tracks:
@@ -33,8 +36,8 @@ class Store:
         self.shards_cell = Cell(VecV(tuple(MapV(tuple(s)) for s in shards)), tag + '_shards')
         self.queues = [Cell(VecV((), 'queue'), '%s_cmdq%d' % (tag, i)) for i in range(nshards)]
         execs = VecV(tuple((sender(q), Opaque('JoinHandle', '%s_jh%d' % (tag, i))) for i, q in enumerate(self.queues)))
-        self.value = mk(P, 'TrackStore', default_attributes=Opaque('TA', tag + '_default'), metric=Opaque('M', tag + '_metric'),
-                        notifier=Opaque('N', tag + '_notifier'), num_shards=usize(nshards), stores=Ref(self.shards_cell),
+        da, me, no = defaults if defaults is not None else (Opaque('TA', tag + '_default'), Opaque('M', tag + '_metric'), Opaque('N', tag + '_notifier'))
+        self.value = mk(P, 'TrackStore', default_attributes=da, metric=me, notifier=no, num_shards=usize(nshards), stores=Ref(self.shards_cell),
                         executors=execs)
         self.cell = Cell(self.value, tag)
         self.worker_fn = P.impl_methods[('TrackStore', None, 'handle_store_ops')][0][0]
@@ -55,7 +58,7 @@ class Store:
         """the shard's worker thread handles every queued command (each under the shard mutex = atomically)"""
         if not self.queues[i].v.items:
             return
-        self.vm.exec_fn(self.worker_fn, [Ref(self.shards_cell), usize(i), receiver(self.queues[i])], STORE_ENV)
+        self.vm.exec_fn(self.worker_fn, [Ref(self.shards_cell), usize(i), receiver(self.queues[i])], self.env)
 
     def pending(self, i):
         return len(self.queues[i].v.items)
